@@ -376,6 +376,11 @@ func full(a *hx.Args, in *input, res *hx.Result) {
 		if k == 0 {
 			bits = 48
 		}
+		if k == 1 {
+			// a size for which the prover takes a built-in group prime that is LONGER than the minimum the verifier asks for
+			// (keyproof.findSafePrime rounds up to its table; real 1024..4096-bit keys are in that situation too)
+			bits = 84 + krng.Intn(13)
+		}
 		nb := 1 + krng.Intn(4)
 		key := genGoodKey(bits)
 		var bases []*gobig.Int
